@@ -84,7 +84,7 @@ PROPS = {
         modules=['Resonate.Properties.C08'],
         tie_filter=r'task|promiseInsert|promiseUpdate|callback|shape|wiring|uniques',
         harness=[sysdiff('sysdiff-dispatch', ['CreatePromise', 'CreatePromise', 'CreatePromiseAndTask', 'CompletePromise', 'ClaimTask', 'CompleteTask', 'CreateCallback', 'CreateSubscription', 'HeartbeatTasks'],
-                         (30, 150), (800, 200), 'C08,C07,C05', ['-routed', '70', '-fail', '20', '-crash', '1', '-smallcfg', '-known', 'F5'], (250, 200)),
+                         (30, 150), (800, 200), 'C08,C07,C05,C12', ['-routed', '70', '-fail', '20', '-crash', '1', '-smallcfg', '-known', 'F5'], (250, 200)),
                  storediff('storediff-tasks', TASK_KINDS + ['CreatePromise', 'UpdatePromise', 'CreateCallback', 'DeleteCallbacks'], (20, 30), (500, 40)),
                  dict(bin='routesend', name='routesend', quick=['-cases', '1500'], thorough=['-cases', '20000'], search=['-cases', '6000'])],
         rule='routesend: the REAL router decides which promises are routed (a promise whose tag names a receiver is born with its invocation task only if the router matches it): every tag shape against the model and against two direct clauses (plain strings are logical names, receiver objects are physical receivers); ' + SYS_RULE + '; mixes of routed / unrouted promises (routing tags: logical names, URLs, JSON receivers, non-receiver JSON), callbacks and subscriptions; every hand-off outcome (success / refused / error), router failures, store failures, task batch sizes 1..100; monitors: a routed promise is created with its invocation task, a completed promise leaves none of its previous tasks live, C07 task monotonicity, C05',
@@ -94,7 +94,7 @@ PROPS = {
     'C09': dict(
         modules=['Resonate.Properties.C09'],
         tie_filter=r'lock|shape|wiring|uniques',
-        harness=[with_monitor(storediff('storediff-locks', LOCK_KINDS, (30, 40), (800, 50), (300, 50)), 'C09'),
+        harness=[with_monitor(storediff('storediff-locks', LOCK_KINDS + ['HeartbeatTasks', 'HeartbeatTasks', 'ReadLock'], (30, 40), (800, 50), (300, 50)), 'C09'),
                  sysdiff('sysdiff-locks', ['AcquireLock', 'ReleaseLock', 'HeartbeatLocks'], (20, 120), (500, 150), 'C09', ['-fail', '10', '-crash', '1'], (150, 150))],
         rule=SYS_RULE + '; plus storediff over the five lock command kinds (several executions / processes on 3 resources, clock around the lease end); the C09 monitor (at most one lock row per resource) runs on every committed batch',
         assumptions=['time parameters are whatever the callers pass; theorems quantify over all of them'],
